@@ -139,7 +139,9 @@ def generate(seed, tier="quick", mode=None, child=False, **kw):
     if many:
         # many small files with a different secret each (work that a change might spread over worker threads)
         secrets = GC.gen_secrets(r, 12, classes=["text", "num", "hex", "t7", "md5"], words=o["words"] or ())
-    paths, dirs, hidden = GC.gen_tree(r, (r.randint(8, 12) if many else r.randint(1, 4)), hidden=False, dirs=r.random() < 0.5)
+    # (runs compared across real interpreters always have a few files in several directories)
+    paths, dirs, hidden = GC.gen_tree(r, (r.randint(8, 12) if many else max(r.randint(1, 4), 3 if child else 1)), hidden=False,
+                                      dirs=(r.random() < 0.5) or child)
     files = [{"path": p, "lines": GC.gen_lines(r, ctx, secrets, o, r.randint(1, 10))} for p in paths]
     if many:
         ids = sorted(secrets)
